@@ -20,9 +20,9 @@ FINDING_FCV0 = 'C17-FCV0-DTOR'   # id to list in known_findings.json (property C
 CATS = {0: 'trivial', 1: 'declares true_type, throwing moves, user dtor', 2: 'non-TR: user copy ctor, noexcept moves',
         3: 'throwing move ctor/assign', 4: 'opted out: trivially copyable, declares false_type',
         5: 'trivially copyable, declares trivially_relocatable=int', 6: 'noexcept move ctor, throwing move assign, noexcept ADL swap',
-        7: 'trivially copyable and declares true_type'}
+        7: 'trivially copyable and declares true_type', 8: 'throwing move ctor/assign, noexcept ADL swap'}
 REQUIRED_CATS = [0, 1, 2, 3, 4]
-EXTRA_CATS = [5, 6, 7]
+EXTRA_CATS = [5, 6, 7, 8]
 ALIGNS = [1, 2, 4, 8, 16]
 NS_FULL = list(range(41)) + [255, 256, 65535, 65536]
 STDS = ['c++11', 'c++14', 'c++17', 'c++20']
